@@ -1,6 +1,6 @@
 """C10 - The key id in a signature always names the key that produced the MAC."""
 import bisect, threading, time
-from .. import common, sandbox, wproxy, rawhttp, hostdocs
+from .. import common, sandbox, wproxy, rawhttp, hostdocs, mockhost
 from ..oracles import sig
 
 
@@ -80,6 +80,22 @@ def worker(args, scratch):
         stop.set()
         for t in ts: t.join()
         time.sleep(0.2)
+        # byte-identical requests (same method, URL, headers; within one second also the same date) with a key change between them and no
+        # other signed request in between: whatever is remembered from signing the previous one, the MAC must be made with the key that is
+        # announced now
+        if args["shard"] % 2 == 0:
+            conn = w.open("other", root)
+            alt = klist[:4]
+            for k in range(args.get("identical", 120)):
+                kk = alt[k % len(alt)]
+                w.key(kk["guid"], kk["key"])
+                try:
+                    conn.send(rawhttp.build_request("GET", "/same?a=1", [("x-vf-id", "c10-same-%d" % args["shard"]), ("x-h", "v")]))
+                    conn.read_response()
+                except Exception:  # noqa
+                    conn.close(); conn = w.open("other", root)
+                bump("identical_requests_across_key_changes")
+            conn.close()
         rot_times = sorted(int(x[1]) for x in rot)
         clear_spans = [(int(x[1]), int(x[2])) for x in rot if x[0] == "clear"]
         bump("key_generations", len([x for x in rot if x[0] != "clear"]) + 1)
@@ -135,6 +151,64 @@ def worker(args, scratch):
     return res
 
 
+def local_key_worker(args, scratch):
+    """the real key keeper finds the latched key in the local store; the store holds, under the name of the latched key, a file whose content is
+    ANOTHER key document (restore from an old backup, a copy that went wrong): whichever key the agent ends up using, id and MAC of what it
+    emits belong together"""
+    import os, json as _json
+    from .. import wsmock, shim as shimmod
+    res = {"evaluations": 0, "nontrivial": [], "samples": [], "counts": {}, "violations": []}
+    r = common.rng("c10-local", args["tier"], args["shard"])
+    key_dir = os.path.join(scratch, "keys")
+    os.makedirs(key_dir, exist_ok=True)
+    ws = wsmock.WsMock("168.63.129.16", 80, rng=r, key_dir=key_dir, fallback=lambda name, req: hostdocs.own_calls_handler(name, req) or {"status": 200, "body": b"ok"})
+    ws.version = "1.0"; ws.state_v1 = "Wireserver"
+    k1, k2 = ws.new_key(), ws.new_key()
+    ws.latched = k2["guid"]; ws.latched_history.append(k2["guid"])
+    variant = args["shard"] % 3
+    if variant == 0:      # file named after the latched key, content of another key
+        open(os.path.join(key_dir, k2["guid"] + ".key"), "w").write(_json.dumps(k1))
+    elif variant == 1:    # same, with the guid written in upper case inside the document
+        d = dict(k1); d["guid"] = d["guid"].upper()
+        open(os.path.join(key_dir, k2["guid"] + ".key"), "w").write(_json.dumps(d))
+    else:                 # control: the right document
+        open(os.path.join(key_dir, k2["guid"] + ".key"), "w").write(_json.dumps(k2))
+    imds = mockhost.MockHost("169.254.169.254", 80, lambda req: hostdocs.own_calls_handler("imds", req) or {"status": 200, "body": b"{}"}, name="imds")
+    sh = shimmod.Shim(scratch + "/shim", runtime="multi:4")
+    try:
+        sh.call("init", log_dir=scratch + "/logs", log_level="Info")
+        sh.call("key_keeper_start", base_url="http://168.63.129.16:80/", key_dir=key_dir, log_dir=scratch + "/logs", interval_ms=50)
+        t0 = time.time()
+        while ws.count("status") < 3 and time.time() - t0 < 10:
+            time.sleep(0.02)
+        sh.call("event_reader_start", dir=scratch + "/events", interval_ms=5, delay_start=False)
+        t0 = time.time()
+        while time.time() - t0 < 3:
+            n = sum(1 for u in ws.mock.snapshot() if u.header("x-ms-azure-host-authorization"))
+            if n >= 10:
+                break
+            time.sleep(0.05)
+        keys = dict(ws.issued)
+        for m in (ws.mock, imds):
+            for u in m.snapshot():
+                if not u.header("x-ms-azure-host-authorization") or sig.is_exempt(u.method, u.target):
+                    continue
+                res["evaluations"] += 1
+                verdict, detail = sig.verify(u, keys)
+                res["counts"]["local-store-variant-%d:%s" % (variant, verdict)] = res["counts"].get("local-store-variant-%d:%s" % (variant, verdict), 0) + 1
+                if verdict == "mismatch":
+                    other = sig.find_key(u, keys)
+                    res["violations"].append(["own-guid-of-one-key-mac-of-another" if other else "own-mac-under-no-known-key",
+                                              {"head": u.raw_head.decode("latin-1"), "mac_verifies_under": other, "local_store": "file named after the latched key holds another key document" if variant < 2 else "control"}])
+                    break
+        res["nontrivial"].append("local-store-variant-%d" % variant)
+        for p in sh.panics():
+            res["violations"].append(["panic:%s" % p.get("location"), p])
+    finally:
+        sh.close(); ws.close(); imds.close()
+    return res
+
+
 def run(tier, rep):
     wproxy.build_helper()
     rep.coverage["rule"] = ("8-32 keep-alive clients send signed requests through the real ProxyServer while the latched key is replaced/cleared from inside the process by the same update_key/clear_key the key "
@@ -148,6 +222,8 @@ def run(tier, rep):
                      "period_us": [0, 200, 1000, 2000][i % 4], "clear_every": 0 if i % 4 else 50, "delays": i % 2 == 0,
                      "delay_permille": 500, "delay_us": 1500, "own_calls": i % 3 != 2, "reject_permille": 300 if i % 4 in (1, 2) else 0})
     for res in sandbox.run_many("vf.props.c10", "worker", args, workers=shards, timeout=1500 if tier == "quick" else 9000):
+        rep.merge_worker(res)
+    for res in sandbox.run_many("vf.props.c10", "local_key_worker", [{"shard": i, "tier": tier} for i in range(3 if tier == "quick" else 12)], workers=3, timeout=600 if tier == "quick" else 3600):
         rep.merge_worker(res)
     if rep.coverage.get("proxied_requests_straddling_a_rotation", 0) < 300 and not rep.violations:
         rep.inconclusive.append("fewer than 300 requests straddled a rotation")
